@@ -1,2 +1,3 @@
 pub mod walk;
 pub mod report;
+pub mod detect;
